@@ -1,4 +1,4 @@
-use std::collections::HashMap;
+use std::collections::BTreeMap;
 use std::error::Error;
 use std::fmt;
 use std::num::{ParseFloatError, ParseIntError};
@@ -28,7 +28,7 @@ pub enum SvgdxError {
     MissingBoundingBox(String),
     MessageError(String),
     InternalLogicError(String),
-    MultiError(HashMap<OrderIndex, (SvgElement, SvgdxError)>),
+    MultiError(BTreeMap<OrderIndex, (SvgElement, SvgdxError)>),
     OtherError(Box<dyn std::error::Error>),
 }
 
